@@ -68,7 +68,7 @@ func Run(c *core.Ctx) {
 			}
 			files = append(files, f)
 		}
-		prog, err := probe.Build(files, tgen.Helpers)
+		prog, err := buildProbe(files)
 		if err != nil {
 			// The grammar's raw Go snippets ("k := len(xs)", "var q = 1") can land twice in one Go block: the template's
 			// own Go code is then ill-typed (the property quantifies over well-typed files).  Only when EVERY compiler
@@ -79,7 +79,7 @@ func Run(c *core.Ctx) {
 					c.Hist("generated template with ill-typed raw Go (redeclared variable): dropped")
 				}
 				files = rest
-				prog, err = probe.Build(files, tgen.Helpers)
+				prog, err = buildProbe(files)
 			}
 		}
 		if err != nil {
@@ -99,7 +99,7 @@ func Run(c *core.Ctx) {
 				}
 			}
 		}
-		res, err := prog.Run(pc)
+		res, err := runProbe(c, prog, pc, func(i int) string { return files[owner[i]].Src })
 		prog.Close()
 		if err != nil {
 			c.Oblige("correspondence", "probe program runs", false, err.Error())
@@ -147,6 +147,7 @@ func Run(c *core.Ctx) {
 	ctlFamily(c)
 	rawDeclFamily(c)
 	lap("trace and control-transfer probes")
+	c.Oblige("correspondence", destFamily+" (every compiled probe case, rendered again into bufio.Writers of several sizes, a strings.Builder, a Write-only writer and a pipe that persist across cases)", c.NFails(destFamily) == 0, "")
 	c.Sample(map[string]any{"note": "a rendered case", "args": randArgs(c.Rng)})
 }
 
